@@ -117,11 +117,27 @@ CORPUS_LISTS = [
 ]
 
 
+def _rawnnfa_reqs(g, n, mks):
+    """Tie for the memory-level transcription of the compiler (L1cMemCompile): the raw `states` / `sparse` / `matches`
+    vectors of the real noncontiguous NFA just before `shuffle` (hook H5) against `MemNfa.compile`, cell for cell"""
+    out = []
+    for pats in CORPUS_LISTS[:8]:
+        for mk in mks:
+            out.append(fmt_req("rawnnfa", {"mk": mk, "pats": hxlist(pats)}))
+    for _ in range(n):
+        pats = g.pats(kinds=["tiny", "tiny3", "nest", "akb", "suffix_chain", "failchain", "periodic", "fanout_small", "casey", "random_bytes"])
+        kv = {"mk": g.rng.choice(mks), "pats": hxlist(pats)}
+        if g.rng.random() < 0.3:
+            kv["fold"] = 1
+        out.append(fmt_req("rawnnfa", kv))
+    return out
+
+
 def gen_C01(tier, seed):
     g = Gen(seed)
     q = tier == "quick"
     cf = CFG_LOW + CFG_TOP
-    reqs = []
+    reqs = _rawnnfa_reqs(g, qn(q, 40, 400), ["lf", "ll"])
     for pats in CORPUS_LISTS:
         for mk in ("lf", "ll"):
             for hay in (b"abx", b"aab", b"abcabc", b"xabcd", b"aabab", b"samwise"):
@@ -153,7 +169,7 @@ def gen_C02(tier, seed):
     g = Gen(seed)
     q = tier == "quick"
     cf = CFG_LOW + CFG_TOP
-    reqs = []
+    reqs = _rawnnfa_reqs(g, qn(q, 40, 400), ["std"])
     for pats in CORPUS_LISTS:
         for hay in (b"abx", b"aab", b"abcabc", b"xabcd", b"aabab"):
             for op in ("find", "iter"):
@@ -180,7 +196,7 @@ def gen_C03(tier, seed):
     g = Gen(seed)
     q = tier == "quick"
     cf = CFG_LOW + ["tnc.d.1.0.b", "tdfa.d.1.0.u", "auto.d.1.0.u"]
-    reqs = []
+    reqs = _rawnnfa_reqs(g, qn(q, 30, 300), ["std"])
     for pats in CORPUS_LISTS:
         for hay in (b"ab", b"abx", b"aab", b"abcabc", b"xabcd", b"aabab"):
             reqs.append(fmt_req("ovl", {"mk": "std", "pats": hxlist(pats), "hay": hx(hay),
